@@ -17,7 +17,7 @@ func runC02(r *rt.Run) {
 	r.Describe = describePair
 	p := buildPools(r.Thorough())
 	r.Bounds["pools"] = p.desc
-	r.Rule = "every ordered pair over pools of valid shapes built exhaustively from lattice alphabets (all half-step points, all rectangles incl. zero-extent, all lines of 2-3 positions incl. zero-length segments, all simple rings, curated exteriors x all valid holes); both operand orders; two index configurations and a third realisation in which both operands are derived objects (built elsewhere under an r-tree index, brought to their place through Move) a fourth scaled by 2^-30 and a fifth small and far away (step 2^-12 at 2^19); rings of types implemented outside the library; polygons sharing a Ring object (a plug built around the ring value another polygon uses as hole / exterior); non-trivial = bounding boxes meet"
+	r.Rule = "every ordered pair over pools of valid shapes built exhaustively from lattice alphabets (all half-step points, all rectangles incl. zero-extent, all lines of 2-3 positions incl. zero-length segments, all simple rings, curated exteriors x all valid holes); both operand orders; two index configurations and a third realisation in which both operands are derived objects (built elsewhere under an r-tree index, brought to their place through Move) a fourth scaled by 2^-300 and a fifth small and far away (step 2^-12 at 2^19); rings of types implemented outside the library; polygons sharing a Ring object (a plug built around the ring value another polygon uses as hole / exterior); non-trivial = bounding boxes meet"
 	r.Assume = []string{"valid operands (simple rings, holes inside) on small dyadic coordinates", "reference: exact set intersection via 1-D decomposition of boundary segments (verif/mc/exact); symmetric by construction"}
 	allPairs(r, p, func(a, b *shp, w *rt.Worker) {
 		cur := &curPair{"intersects", a.E, b.E}
